@@ -11,6 +11,7 @@ def parseOp (s : String) : Option (Op Nat) :=
   | 'y' => tl.toNat?.map fun v => .exec [v]        -- a statement answering with one (status) row
   | 'o' => some .one
   | 'f' => some .fail
+  | 'p' => some .pandas
   | 'm' => tl.toNat?.map .many
   | 'a' => some .all
   | 's' => tl.toNat?.map .setAs
@@ -22,6 +23,7 @@ def encOut : Out Nat → String
   | .row none => "n"
   | .row (some i) => s!"r{i}"
   | .rows l => "l" ++ ",".intercalate (l.map toString)
+  | .frame l => "p" ++ ",".intercalate (l.map toString)
 
 def handle : List String → String
   | ["run", ops] =>
